@@ -98,7 +98,8 @@ impl Graph {
 }
 
 /// node = FUNCTION_BLOCK, edge = an instance variable of the target type
-pub fn realise_fb(g: &Graph, salt: u64) -> String {
+pub fn realise_fb(g: &Graph, salt: u64, arrays: bool) -> (String, Vec<(usize, usize)>) {
+    let mut soft = vec![];
     let mut s = String::new();
     let mut z = salt;
     for &i in g.order(salt).iter() {
@@ -108,7 +109,13 @@ pub fn realise_fb(g: &Graph, salt: u64) -> String {
             if g.adj[i][j] {
                 z = mix(z);
                 let kw = ["VAR", "VAR_INPUT", "VAR_OUTPUT"][(z % 3) as usize];
-                s.push_str(&format!("{}\ninst{}_{} : fb{};\nEND_VAR\n", kw, i, j, j));
+                if arrays && (z >> 8) % 4 == 0 {
+                    // an array of instances (whether that "contains an instance" is not settled: soft edge)
+                    soft.push((i, j));
+                    s.push_str(&format!("{}\ninst{}_{} : ARRAY[1..2] OF fb{};\nEND_VAR\n", kw, i, j, j));
+                } else {
+                    s.push_str(&format!("{}\ninst{}_{} : fb{};\nEND_VAR\n", kw, i, j, j));
+                }
                 any = true;
             }
         }
@@ -117,12 +124,13 @@ pub fn realise_fb(g: &Graph, salt: u64) -> String {
         }
         s.push_str("END_FUNCTION_BLOCK\n");
     }
-    s
+    (s, soft)
 }
 
 /// node = data type: leaf = enumeration, out-degree 1 = alias (when the target resolves to an
 /// enumeration) or one-element structure, out-degree >= 2 = structure with one element per edge
-pub fn realise_type(g: &Graph, salt: u64) -> String {
+pub fn realise_type(g: &Graph, salt: u64, arrays: bool) -> (String, Vec<(usize, usize)>) {
+    let mut soft = vec![];
     // which nodes resolve to an enumeration through alias chains (only meaningful for acyclic parts)
     let outdeg: Vec<usize> = (0..g.n).map(|i| g.adj[i].iter().filter(|x| **x).count()).collect();
     let mut z = salt;
@@ -166,25 +174,36 @@ pub fn realise_type(g: &Graph, salt: u64) -> String {
         } else if outdeg[i] == 1 && alias[i] {
             let j = (0..g.n).find(|&j| g.adj[i][j]).unwrap();
             s.push_str(&format!("t{} : t{};\n", i, j));
+        } else if outdeg[i] == 1 && arrays && mix(salt ^ (i as u64 * 77)) % 4 == 0 {
+            // an array type whose elements are of the target type
+            let j = (0..g.n).find(|&j| g.adj[i][j]).unwrap();
+            soft.push((i, j));
+            s.push_str(&format!("t{} : ARRAY[1..2] OF t{};\n", i, j));
         } else {
             s.push_str(&format!("t{} : STRUCT\n", i));
             for j in 0..g.n {
                 if g.adj[i][j] {
-                    s.push_str(&format!("e{}_{} : t{};\n", i, j, j));
+                    if arrays && mix(salt ^ ((i * 16 + j) as u64 * 131)) % 4 == 0 {
+                        soft.push((i, j));
+                        s.push_str(&format!("e{}_{} : ARRAY[0..1] OF t{};\n", i, j, j));
+                    } else {
+                        s.push_str(&format!("e{}_{} : t{};\n", i, j, j));
+                    }
                 }
             }
             s.push_str("END_STRUCT;\n");
         }
         s.push_str("END_TYPE\n");
     }
-    s
+    (s, soft)
 }
 
 /// mixed realisation: every node is a FUNCTION_BLOCK or a STRUCT (kind from the salt, at least one
 /// of each when n >= 2); an edge is an instance variable / a structure element of the target type.
 /// "A function block transitively contains an instance of itself" also when the path runs through
 /// structures.
-pub fn realise_mixed(g: &Graph, salt: u64) -> Option<String> {
+pub fn realise_mixed(g: &Graph, salt: u64, arrays: bool) -> Option<(String, Vec<(usize, usize)>)> {
+    let mut soft = vec![];
     if g.n < 2 {
         return None;
     }
@@ -209,7 +228,12 @@ pub fn realise_mixed(g: &Graph, salt: u64) -> Option<String> {
             let mut any = false;
             for j in 0..g.n {
                 if g.adj[i][j] {
-                    s.push_str(&format!("inst{}_{} : {};\n", i, j, name(j)));
+                    if arrays && mix(salt ^ ((i * 16 + j) as u64 * 977)) % 4 == 0 {
+                        soft.push((i, j));
+                        s.push_str(&format!("inst{}_{} : ARRAY[1..2] OF {};\n", i, j, name(j)));
+                    } else {
+                        s.push_str(&format!("inst{}_{} : {};\n", i, j, name(j)));
+                    }
                     any = true;
                 }
             }
@@ -222,7 +246,12 @@ pub fn realise_mixed(g: &Graph, salt: u64) -> Option<String> {
             let mut any = false;
             for j in 0..g.n {
                 if g.adj[i][j] {
-                    s.push_str(&format!("e{}_{} : {};\n", i, j, name(j)));
+                    if arrays && mix(salt ^ ((i * 16 + j) as u64 * 613)) % 4 == 0 {
+                        soft.push((i, j));
+                        s.push_str(&format!("e{}_{} : ARRAY[0..1] OF {};\n", i, j, name(j)));
+                    } else {
+                        s.push_str(&format!("e{}_{} : {};\n", i, j, name(j)));
+                    }
                     any = true;
                 }
             }
@@ -232,7 +261,7 @@ pub fn realise_mixed(g: &Graph, salt: u64) -> Option<String> {
             s.push_str("END_STRUCT;\nEND_TYPE\n");
         }
     }
-    Some(s)
+    Some((s, soft))
 }
 
 pub fn judge(text: &str, cyclic: bool) -> Result<bool, (String, String)> {
@@ -254,21 +283,49 @@ pub fn judge(text: &str, cyclic: bool) -> Result<bool, (String, String)> {
     Ok(cyclic || codes.is_empty())
 }
 
-fn check_graph(g: &Graph, salt: u64, stats: &mut Stats, counting: bool) -> Result<(), Failure> {
+fn check_graph(g: &Graph, salt: u64, arrays: bool, stats: &mut Stats, counting: bool) -> Result<(), Failure> {
     let cyc = g.cyclic();
     if g.n <= 4 && cyc != g.cyclic_closure() {
         return Err(Failure::new("reference", "oracle-disagreement", "DFS and transitive closure disagree", json!({"graph": g.describe()})));
     }
-    let mut realisations = vec![("fb", realise_fb(g, salt)), ("type", realise_type(g, salt))];
-    if let Some(m) = realise_mixed(g, salt) {
+    let mut realisations = vec![("fb", realise_fb(g, salt, arrays)), ("type", realise_type(g, salt, arrays))];
+    if let Some(m) = realise_mixed(g, salt, arrays) {
         realisations.push(("mixed", m));
     }
-    for (kind, text) in realisations {
+    for (kind, (text, soft)) in realisations {
+        // edges realised through ARRAY OF are soft: a cycle that exists only through them is not
+        // judged (the property names instances, aliases and structure elements); a cycle on the
+        // hard edges must be reported, a graph without any cycle must not be
+        let cyc_hard = if soft.is_empty() {
+            cyc
+        } else {
+            let mut h = g.clone();
+            for (i, j) in &soft {
+                h.adj[*i][*j] = false;
+            }
+            h.cyclic()
+        };
+        if cyc && !cyc_hard {
+            if counting {
+                stats.case(true, hash_str(&text));
+                stats.class(&format!("{}.cycle-only-through-arrays(not judged)", kind));
+            }
+            // totality is still observed
+            if let Err((k, d)) = judge(&text, true) {
+                if k == "panic" || k == "generator-health" {
+                    return Err(Failure::new(&format!("graph-{}", kind), &k, format!("{}: {}", g.describe(), d), json!({"graph": g.describe(), "cyclic": cyc, "text": text, "realisation": kind})));
+                }
+            }
+            continue;
+        }
         let r = judge(&text, cyc);
         if counting {
             let nt = g.n >= 2 && g.edges() >= 1;
             stats.case(nt, hash_str(&text));
             stats.class(&format!("{}.{}", kind, if cyc { "cyclic" } else { "acyclic" }));
+            if !soft.is_empty() {
+                stats.class(&format!("{}.with-array-edges", kind));
+            }
             if !cyc && g.reconvergent() {
                 stats.class(&format!("{}.acyclic.reconvergent", kind));
             }
@@ -316,7 +373,7 @@ pub fn run(ctx: &Ctx) -> i32 {
         ctx.tier,
         ctx.seed,
         "exploration",
-        "directed graphs with self-loops: ALL graphs on 1..4 nodes (2+16+512+65536, exhaustive) and random graphs on 5..12 nodes (edge density drawn per case, DAG-biased half of the time with an optional single back edge), each realised as a function-block instance graph (VAR / VAR_INPUT / VAR_OUTPUT instances) as a type graph (alias / structure element) and as a mixed graph (every node a function block or a structure, edges = instance variables / structure elements), declarations in a seed-derived order. Oracle: reference DFS cycle test (cross-checked by transitive closure for n<=4): cyclic => P0010 or P0013 reported; acyclic => neither. Non-trivial: >= 2 nodes and >= 1 edge; distinct by program text.",
+        "directed graphs with self-loops: ALL graphs on 1..4 nodes (2+16+512+65536, exhaustive) and random graphs on 5..12 nodes (edge density drawn per case, DAG-biased half of the time with an optional single back edge), each realised as a function-block instance graph (VAR / VAR_INPUT / VAR_OUTPUT instances) as a type graph (alias / structure element) and as a mixed graph (every node a function block or a structure, edges = instance variables / structure elements; in a third of the graphs a quarter of the edges go through ARRAY OF and are soft: cycles only through them are not judged), declarations in a seed-derived order. Oracle: reference DFS cycle test (cross-checked by transitive closure for n<=4): cyclic => P0010 or P0013 reported; acyclic => neither. Non-trivial: >= 2 nodes and >= 1 edge; distinct by program text.",
     );
     // exhaustive part
     let mut items: Vec<(usize, u64)> = vec![];
@@ -336,7 +393,7 @@ pub fn run(ctx: &Ctx) -> i32 {
     let seed = ctx.seed;
     let out = run_items(&items, ctx.threads, |(n, bits), stats| {
         let g = Graph::from_bits(*n, *bits);
-        check_graph(&g, mix(seed ^ (*bits << 8) ^ *n as u64), stats, true)
+        check_graph(&g, mix(seed ^ (*bits << 8) ^ *n as u64), mix(seed ^ *bits) % 3 == 0, stats, true)
     });
     rep.add(out);
     rep.exhaustive = Some(false);
@@ -346,7 +403,7 @@ pub fn run(ctx: &Ctx) -> i32 {
         let mut t = Tape::new(tape);
         let g = random_graph(&mut t);
         let salt = t.u64();
-        check_graph(&g, salt, stats, counting)
+        check_graph(&g, salt, salt % 3 == 0, stats, counting)
     });
     rep.add(out);
     let bad: u64 = rep.stats.classes.iter().filter(|(k, _)| k.contains("health")).map(|(_, v)| *v).sum();
@@ -354,7 +411,7 @@ pub fn run(ctx: &Ctx) -> i32 {
         rep.infra_errors.push(format!("{} acyclic graph programs did not analyse Ok", bad));
     }
     rep.replay_witnesses(&ctx.findings, &|w| witness(w));
-    rep.assumptions = vec!["VAR_IN_OUT and ARRAY OF edges are not generated (whether they 'contain an instance' is not settled by the property)".into()];
+    rep.assumptions = vec!["VAR_IN_OUT edges are not generated; ARRAY OF edges are soft (a third of the graphs carry some): a cycle that exists only through arrays is not judged, because whether an array 'contains an instance' is not settled by the property".into()];
     rep.wall_s = clock.secs();
     rep.finish()
 }
